@@ -4,7 +4,7 @@
 A mismatch makes the check exit 2 (HARNESS-ERROR nondeterminism detected).
 
 usage: tools/selftest_determinism.py [seed ...] [--props C01,C02]
-NOTE: rewrites evidence files; re-run the checks with the default seed afterwards.
+Evidence of these runs goes to a scratch directory (VERIF_EVIDENCE_DIR), not to /verif/evidence.
 """
 import os
 import subprocess
@@ -22,17 +22,21 @@ def main(argv):
     for a in argv[1:]:
         if a.startswith('--props='):
             props = a.split('=')[1].split(',')
+    import shutil
+    import tempfile
+    scratch = tempfile.mkdtemp(prefix='simlab-selftest-ev-', dir='/tmp')
     bad = 0
     for seed in seeds:
         for p in props:
             t0 = time.time()
-            env = {**os.environ, 'VERIF_SEED': seed, 'VERIF_RECHECK': '1'}
+            env = {**os.environ, 'VERIF_SEED': seed, 'VERIF_RECHECK': '1', 'VERIF_EVIDENCE_DIR': scratch}
             r = subprocess.run([os.path.join(HERE, 'check'), p, 'quick'], cwd=HERE, env=env, capture_output=True, text=True)
             line = [l for l in r.stdout.splitlines() if l.startswith(('OK', 'VIOLATION', 'HARNESS'))]
             status = line[0][:160] if line else r.stdout[-200:]
             print(f'seed={seed} {p} exit={r.returncode} {time.time() - t0:.0f}s {status}', flush=True)
             if r.returncode != 0:
                 bad += 1
+    shutil.rmtree(scratch, ignore_errors=True)
     return 1 if bad else 0
 
 
